@@ -32,9 +32,10 @@ EXTENDS Naturals, Sequences, FiniteSets, TLC
 Switches == { "numpy-shape-dtype",          \* array digest = f(class, size, raw C-order bytes)
               "set-sorted-partial-order",   \* set digest = f(elements in Python's sorted() order)
               "closure-value",              \* function digest ignores captured cell values
-              "shell-field-metadata" }      \* task digest ignores argstr/position/sep/formatter
+              "shell-field-metadata",       \* task digest ignores argstr/position/sep/formatter
+              "generic-alias-args" }        \* digest of list[int], dict[str, int], ... ignores the arguments
 
-ScalarKinds == {"int", "float", "complex", "bool", "str", "bytes", "none", "type", "ellipsis"}
+ScalarKinds == {"int", "float", "complex", "bool", "str", "bytes", "none", "ellipsis"}
 
 SeqRange(s) == { s[i] : i \in 1..Len(s) }
 
@@ -104,6 +105,10 @@ CanonS(t, S) ==
          IF "numpy-shape-dtype" \in S
          THEN [k |-> "ndarray", v |-> <<t.cls, t.size, t.raw>>]
          ELSE [k |-> "ndarray", v |-> <<t.cls, t.dtype, t.shape, t.v>>]
+    [] t.k = "type" ->    \* a type is its name; alias = "builtin" for PEP 585 aliases such as list[int]
+         IF "generic-alias-args" \in S /\ t.alias = "builtin"
+         THEN [k |-> "type", v |-> <<"builtin-alias-of", t.origin>>]
+         ELSE [k |-> "type", v |-> <<t.v>>]
     [] t.k = "path" -> [k |-> "path", v |-> <<t.cls, t.v>>]
     [] t.k = "file" -> [k |-> "file", v |-> <<t.cls, t.content>>]
     [] t.k = "obj"  -> [k |-> "obj",  v |-> <<t.cls, NamedMap(t.v, S)>>]
